@@ -156,6 +156,7 @@ impl<'c, 'view> GetterReturnVisitor<'c, 'view> {
   {
     let prev_name = self.getter_name.take();
     let prev_has_return = self.has_return;
+    self.has_return = false;
     op(self);
     self.getter_name = prev_name;
     self.has_return = prev_has_return;
@@ -360,6 +361,7 @@ impl Visit for GetterReturnVisitor<'_, '_> {
         self.report_expected(return_stmt.range());
       }
     }
+    return_stmt.visit_children_with(self);
   }
 }
 
